@@ -1,6 +1,7 @@
 import OtelVerif.Model.C20
 import OtelVerif.Lemmas.C20
 import OtelVerif.Lemmas.C20Mon
+import OtelVerif.Lemmas.C20Bridge
 /-!
 # C20 — collector run loop: one live service at a time, orderly reload, ends Closed
 
@@ -145,6 +146,21 @@ example : (run .fixed [.begin, .step true, .step true, .step false, .step true, 
 example : (run .fixed [.begin, .step true, .step true, .step true, .step true, .post .hup, .pick .hup, .step true, .step true,
     .step true, .step false]).map (fun s => (s.ret, s.stop, s.st, s.created, s.sdLog)) =
     some (some false, none, .starting, [1], [1]) := by rfl
+
+/-- The recorded watch point, made precise: when Run returns because a configuration could not be brought up, it does NOT go
+through `shutdown` — the config providers are not shut down, and the state is Closed only for the initial configuration;
+after a failed reload it stays Starting (new configuration failed) or Closing (retiring service failed to shut down).
+The statement's Closed/providers clause is about the five listed stop reasons (`C20_ends_closed`); for this path it asks
+what `C20_start_failure` proves. A "tidy-up" that called `shutdown` here would shut the retiring service down a second
+time (`col.service` still points to it when `Get` fails) — the differential and `C20/service/component-shutdown-twice` catch that. -/
+theorem C20_failed_bringup_end_state (v : Variant) (s : S) (h : Reachable v s) (hr : s.ret.isSome = true) (hs : s.stop = none) :
+    s.provSd = 0 ∧ ((s.everRunning = false ∧ s.st = .closed) ∨ (s.everRunning = true ∧ (s.st = .starting ∨ s.st = .closing))) := by
+  have hi := inv_reachable h
+  have hpc : s.pc = .done := hi.retDone.1 hr
+  refine ⟨?_, hi.doneNoStop hpc hs⟩
+  have := hi.prov
+  simp only [S.core] at this
+  rw [this]; simp [hpc, hs]
 
 /-! ## Shutdown() is safe, idempotent, and (repaired code) never lost -/
 
@@ -312,5 +328,39 @@ example : check [.st .starting, .created 1 0, .started 1 0, .st .running, .st .c
 example : check [.st .starting, .created 1 0, .started 1 0, .st .running, .st .closing, .created 2 0] = false := by decide
 example : check [.st .starting, .created 1 0, .started 1 0, .st .running, .st .closing, .call, .shut 1 0, .st .starting,
     .created 2 0, .started 2 0, .st .running, .quiet] = false := by decide
+
+/-! ## bridge: the model's own logs are accepted by the monitor, hence satisfy the trace-level statement -/
+
+/-- every event log the model can produce — any variant, any interleaving, any failure assignment — is accepted by the
+monitor that judges the logs of the real collector -/
+theorem C20_model_log_accepted (v : Variant) (s : S) (h : Reachable v s) : check s.log = true := by
+  obtain ⟨m, hm, _⟩ := acc_reachable h
+  simp [check, hm]
+
+/-- … so the trace-level statement of the property (`TraceOK`, stated without the monitor or the model) holds of every
+log of the model: the state-level theorems above and the judgement passed on real logs talk about the same thing -/
+theorem C20_model_trace_ok (v : Variant) (s : S) (h : Reachable v s) : TraceOK s.log :=
+  C20_check_sound _ (C20_model_log_accepted v s h)
+
+/-- (repaired code) whenever the model is at rest, the observation "at rest" appended to its log is accepted too: the
+monitor's lost-request clause never fires on the repaired model … -/
+theorem C20_model_quiet_accepted (s : S) (h : Reachable .fixed s) (hq : Quiescent s) : check (s.log ++ [.quiet]) = true := by
+  obtain ⟨m, hm, hr⟩ := acc_reachable h
+  have hret : s.req = true → s.ret.isSome = true := fun hreq =>
+    (inv_reachable h).retDone.2 (C20_shutdown_honoured s h hreq hq)
+  have h1 := hr.req
+  have h2 := hr.ret
+  simp only [S.core] at h2
+  by_cases hreq : s.req = true
+  · have hne : s.ret ≠ none := by
+      intro hn; have := hret hreq; simp [hn] at this
+    simp [check, Mon.run_append_ok hm, Mon.run, Mon.step, h1, h2, hreq, hne]
+  · simp [check, Mon.run_append_ok hm, Mon.run, Mon.step, h1, hreq]
+
+/-- … while on the pinned model it does: the log of `lostWitness` followed by "at rest" is rejected as a lost request -/
+theorem C20_model_quiet_rejected_pinned :
+    (run .pinned lostWitness).map (fun s => (s.closers, s.anyReady, s.pc, check (s.log ++ [.quiet]))) =
+      some (0, false, .select, false) := by
+  decide
 
 end OtelVerif.C20
